@@ -186,3 +186,8 @@ func (v *vocab) isConnPtr(t types.Type) bool {
 	p, ok := t.(*types.Pointer)
 	return ok && types.Identical(p.Elem(), v.connT)
 }
+
+func (v *vocab) isLoopPtr(t types.Type) bool {
+	p, ok := t.(*types.Pointer)
+	return ok && types.Identical(p.Elem(), v.elT)
+}
